@@ -1,0 +1,33 @@
+//go:build verif
+
+// Machine-checked contracts for package httpgen (read by /verif/govc as text).
+
+package httpgen
+
+//@ func camelToSnake(s string) (r string)
+//@   pure
+//@   assume-contract
+
+//@ func (g *Generator) getCustomPath(method *protogen.Method) (r string)
+//@   pure
+//@   ensures r == ite(spec.hasConfig(method), spec.cfgPath(method), "")
+
+//@ func (g *Generator) getServiceBasePath(service *protogen.Service) (r string)
+//@   pure
+//@   ensures r == spec.basePath(service)
+
+//@ func (g *Generator) getHTTPMethod(method *protogen.Method) (r string)
+//@   pure
+//@   ensures r == spec.verbOf(method)
+
+//@ func (g *Generator) getPathParams(method *protogen.Method) (r []string)
+//@   pure
+//@   ensures r == spec.pathVars(method)
+
+//@ func (g *Generator) getMethodPath(method *protogen.Method, basePath string, packageName protogen.GoPackageName) (r string)
+//@   pure
+//@   let c = ite(spec.hasConfig(method), spec.cfgPath(method), "")
+//@   ensures both: basePath != "" && c != "" ==> r == trimSuffix(basePath, "/") + ite(hasPrefix(c, "/"), c, "/" + c)
+//@   ensures custom: basePath == "" && c != "" ==> r == c
+//@   ensures base: basePath != "" && c == "" ==> r == trimSuffix(basePath, "/") + "/" + camelToSnake(method.GoName)
+//@   ensures default: basePath == "" && c == "" ==> r == "/" + string(packageName) + "/" + camelToSnake(method.GoName)
